@@ -161,7 +161,11 @@ func hostileConn(addr string, data []byte, frag int, rng *mrand.Rand) (closedByP
 }
 
 // canary: a well-formed publisher and player through the same server must still work.
-func rtmpCanary(s *srv.Server, name string) error {
+func rtmpCanary(s *srv.Server, name string) error { return rtmpCanaryMin(s, name, 9) }
+
+// rtmpCanaryMin: at least min of the 9 canary messages must arrive (merge-write configurations
+// legitimately withhold a tail smaller than merge_write_size).
+func rtmpCanaryMin(s *srv.Server, name string, min int) error {
 	sub, err := ref.StartRtmpSubscriber(s.RtmpAddr(), "live", name, 5*time.Second)
 	if err != nil {
 		return fmt.Errorf("canary subscriber: %w", err)
@@ -176,13 +180,16 @@ func rtmpCanary(s *srv.Server, name string) error {
 	}
 	defer pub.Close()
 	r := mrand.New(mrand.NewSource(1))
-	msgs := gen.Build(r, 9, gen.Shape{Video: true, Audio: true, Meta: true, Gops: 1, GopLen: 3, AudioPerVid: 1})
+	msgs := gen.Build(r, 9, gen.Shape{Video: true, Audio: true, Meta: true, Gops: 1, GopLen: 3, AudioPerVid: 1, Sizes: []int{3000}})
 	for _, m := range msgs {
 		if err := pub.RC.Send(ref.RtmpMsg{Csid: csidFor(m.Type), TypeID: m.Type, StreamID: pub.Msid, Ts: m.Ts, Payload: m.Payload}, 0); err != nil {
 			return fmt.Errorf("canary send: %w", err)
 		}
 	}
-	want := len(msgs)
+	want := min
+	if want > len(msgs) {
+		want = len(msgs)
+	}
 	if !sub.Hist.WaitFor(5*time.Second, func(ms []ref.RtmpMsg) bool { return len(ms) >= want }) {
 		return fmt.Errorf("canary player received %d of %d messages", sub.Hist.Len(), want)
 	}
